@@ -225,6 +225,10 @@ pub fn last_state_proof_mutants(
         let twin = c.blocks.iter().find(|b| {
             b.id != plan.last && b.num == c.blocks[plan.last].num && b.parent.is_some() && b.parent != Some(par)
                 && b.ttd == c.blocks[plan.last].ttd && b.td == c.blocks[plan.last].td && b.pow && b.root
+                // (the client takes the answer for one to its request only if the total difficulty in the chain
+                //  root beside the last header, i.e. the parent's, is the announced one; otherwise it is "an
+                //  unknown proof" and ignored)
+                && b.parent.map(|q| c.blocks[q].td == c.blocks[par].td && c.blocks[q].ttd == c.blocks[par].ttd).unwrap_or(false)
         });
         if let Some(tw) = twin {
             let p2 = ProofPlan { last: tw.id, reorg: plan.reorg.clone(), samples: plan.samples.clone(), last_n: plan.last_n.clone() };
